@@ -77,17 +77,41 @@ impl<T> SharedFd<T> {
         let inner = self.into_inner();
 
         async move {
+            #[cfg(compio_verif)]
+            compio_log::verif::point(
+                "fd.take.swap",
+                Shared::as_ptr(&inner) as usize as u64,
+                Shared::strong_count(&inner) as u64,
+            );
             if !inner.waits.swap(true, Ordering::AcqRel) {
                 let mut inner = Some(inner);
                 poll_fn(move |cx| {
                     let i = inner.take().unwrap();
+                    #[cfg(compio_verif)]
+                    compio_log::verif::point(
+                        "fd.take.unwrap1",
+                        Shared::as_ptr(&i) as usize as u64,
+                        Shared::strong_count(&i) as u64,
+                    );
                     let this = match Shared::try_unwrap(i) {
                         Ok(fd) => return Poll::Ready(Some(fd.fd)),
                         Err(this) => this,
                     };
 
+                    #[cfg(compio_verif)]
+                    compio_log::verif::point(
+                        "fd.take.register",
+                        Shared::as_ptr(&this) as usize as u64,
+                        Shared::strong_count(&this) as u64,
+                    );
                     this.waker.register(cx.waker());
 
+                    #[cfg(compio_verif)]
+                    compio_log::verif::point(
+                        "fd.take.unwrap2",
+                        Shared::as_ptr(&this) as usize as u64,
+                        Shared::strong_count(&this) as u64,
+                    );
                     match Shared::try_unwrap(this) {
                         Ok(fd) => Poll::Ready(Some(fd.fd)),
                         Err(tt) => {
@@ -98,6 +122,12 @@ impl<T> SharedFd<T> {
                 })
                 .await
             } else {
+                #[cfg(compio_verif)]
+                compio_log::verif::point(
+                    "fd.take.none",
+                    Shared::as_ptr(&inner) as usize as u64,
+                    Shared::strong_count(&inner) as u64,
+                );
                 None
             }
         }
@@ -106,10 +136,28 @@ impl<T> SharedFd<T> {
 
 impl<T> Drop for SharedFd<T> {
     fn drop(&mut self) {
+        #[cfg(compio_verif)]
+        compio_log::verif::point(
+            "fd.drop.check",
+            Shared::as_ptr(&self.0) as usize as u64,
+            Shared::strong_count(&self.0) as u64,
+        );
         // It's OK to wake multiple times.
         if Shared::strong_count(&self.0) == 2 && self.0.waits.load(Ordering::Acquire) {
+            #[cfg(compio_verif)]
+            compio_log::verif::point(
+                "fd.drop.wake",
+                Shared::as_ptr(&self.0) as usize as u64,
+                Shared::strong_count(&self.0) as u64,
+            );
             self.0.waker.wake()
         }
+        #[cfg(compio_verif)]
+        compio_log::verif::point(
+            "fd.drop.dec",
+            Shared::as_ptr(&self.0) as usize as u64,
+            Shared::strong_count(&self.0) as u64,
+        );
     }
 }
 
